@@ -1,6 +1,7 @@
 package main
 
 import (
+	"go/types"
 	"encoding/json"
 	"fmt"
 	"os"
@@ -45,6 +46,19 @@ func loadEngine(tier string) (*Engine, error) {
 	}
 	if nerr > 0 {
 		return nil, fmt.Errorf("%d package errors: /repo does not type-check", nerr)
+	}
+	for _, p := range pkgs {
+		if p.TypesInfo == nil {
+			continue
+		}
+		for _, tv := range p.TypesInfo.Types {
+			if tv.Type == nil {
+				continue
+			}
+			if m, ok := types.Unalias(tv.Type).Underlying().(*types.Map); ok {
+				registerValueStruct(m.Key())
+			}
+		}
 	}
 	packages.Visit(pkgs, nil, func(p *packages.Package) { e.allPkgs[p.PkgPath] = p })
 	e.indexFuncs()
